@@ -90,6 +90,23 @@ CHECKS = {
             'The strict reader accepts only the LP-format subset RSOME writes; Gurobi is the independent reader/solver in solve mode; '
             'exp-cone programs are outside the LP format.',
             'DESIGN.md section 4 / C16'),
+    'C18': ('property-based testing against closed forms (pinned exponents on the grid -4(0.5)4, degrees 4-8, ECOS and Gurobi) and '
+            'differential testing of soc_solve against the exact exp-cone optimum (ECOS) on generated models; structural prefix check of to_socp()',
+            'Generated-input search over every exp-cone atom pinned at grid exponents with the cone placed before/between/after other '
+            'rows, and over mixed LP/SOC/exp models (also with integer columns for the structural part): relative error <= 1e-3 '
+            '(+solver tolerance) for every degree >= 4 whenever all exponents of the exact solution lie in [-4,4]; original rows, '
+            'senses, constants, bounds, types and objective must be an unchanged prefix; the cached formula must not be modified '
+            'and solve() after soc_solve() must reproduce the exact optimum. Sampling, not proof.',
+            'Relative error measured against the magnitude of the approximated terms (absolute 1e-3 per log-type term); softplus '
+            'arguments limited to [-3.5,4] because its internal exponent is u - t; Gurobi size-limited licence failures are skipped.',
+            'DESIGN.md section 4 / C18'),
+    'C19': ('property-based differential testing: two builds / repeated do_math and solve / snapshots around solve compared exactly; '
+            'user arrays compared byte-wise; digests recomputed in fresh interpreters with other hash seeds',
+            'Generated-input search over deterministic and ro models (C06/C01 generators) and a data-handling model consuming user '
+            'arrays of four dtypes, strided views, read-only arrays and scipy sparse matrices in every API position. Sampling, not proof.',
+            'Exact equality of standard forms; RNG state compared via numpy.random.get_state/random.getstate; the cross-process part '
+            'compares sha1 digests of dense standard forms from 4 fresh interpreters.',
+            'DESIGN.md section 4 / C19'),
 }
 
 NOT_YET = 'check not built yet in this round (see DESIGN.md section 4 for the planned generator and oracle)'
